@@ -32,7 +32,7 @@ Proof.
   unfold d_find. simpl. inversion ND as [|? ? Hn ND']; subst.
   destruct (key_eqb pd t e) eqn:K.
   - destruct Hin as [->|Hin]; [reflexivity|]. exfalso. apply key_eqb_true in K. apply Hn.
-    unfold dkeys. apply in_map_iff. exists (pd, t, img). split; [simpl; congruence|exact Hin].
+    unfold dkeys. apply in_map_iff. exists (pd, t, img). split; [simpl; symmetry; exact K|exact Hin].
   - destruct Hin as [->|Hin].
     + exfalso. assert (key_eqb pd t (pd, t, img) = true) by (apply key_eqb_true; reflexivity). congruence.
     + apply IH; assumption.
@@ -142,8 +142,8 @@ Proof.
   - right. exists f, f. repeat split; auto using ver_le_refl.
     + intros g Hg. exists g. split; [exact Hg|apply ver_le_refl].
     + intros g' Hg. destruct I as [_ DIc]. destruct (durable_le_visible cs pd t g' DIc Hg) as (f0 & C0 & L).
-      congruence.
-  - left. split; [reflexivity|]. unfold durable_copy. destruct I as [_ [ND E]].
+      rewrite C in C0. inversion C0; subst. exact L.
+  - left. split; [exact C|]. unfold durable_copy. destruct I as [_ [ND E]].
     destruct (d_find pd t (dirty cs)) as [img|] eqn:F; [|exact C].
     apply d_find_some_in in F. destruct (E pd t img F) as (f & C' & _). congruence.
 Qed.
@@ -171,7 +171,7 @@ Proof.
     by (rewrite HD; now apply d_find_filter).
   destruct (copy (vs cs') pd t) as [f'|] eqn:C'.
   - destruct (HC pd t) as [X|X]; [|congruence]. rewrite C' in X. symmetry in X.
-    right. exists f', f'. split; [exact X|]. split; [reflexivity|]. split; [apply ver_le_refl|]. split.
+    right. exists f', f'. split; [exact X|]. split; [exact C'|]. split; [apply ver_le_refl|]. split.
     + intros g Hg. unfold durable_copy in *. rewrite DF.
       destruct (d_find pd t (dirty cs)) as [img|] eqn:F.
       * subst img. destruct (p (pd, t, Some g)); [exists g; split; [reflexivity|apply ver_le_refl]|].
@@ -179,8 +179,9 @@ Proof.
         apply d_find_some_in in F. destruct (E pd t (Some g) F) as (f0 & C0 & L). rewrite X in C0.
         inversion C0; subst. now apply L.
       * rewrite C'. rewrite X in Hg. exists f'. split; [reflexivity|]. inversion Hg. apply ver_le_refl.
-    + intros g' Hg. destruct (durable_le_visible cs' pd t g' DI' Hg) as (f0 & C0 & L). congruence.
-  - left. split; [reflexivity|]. unfold durable_copy.
+    + intros g' Hg. destruct (durable_le_visible cs' pd t g' DI' Hg) as (f0 & C0 & L).
+      rewrite C' in C0. inversion C0; subst. exact L.
+  - left. split; [exact C'|]. unfold durable_copy.
     destruct (d_find pd t (dirty cs')) as [img|] eqn:F; [|exact C'].
     apply d_find_some_in in F. exfalso. eapply HP; eauto.
 Qed.
@@ -193,7 +194,7 @@ Lemma good_upd : forall cs pd t f f',
 Proof.
   intros cs pd t f f' [ND E] C L cs'.
   assert (CP : forall p t0, copy (vs cs') p t0 = if (p =? pd) && (t0 =? t) then Some f' else copy (vs cs) p t0).
-  { intros. unfold cs'. simpl. rewrite vs_d_mark. apply copy_put_file. }
+  { intros. unfold cs'. simpl. apply copy_put_file. }
   assert (DD : dirty cs' = match d_find pd t (dirty cs) with
                            | Some _ => dirty cs | None => (pd, t, Some f) :: dirty cs end).
   { unfold cs', d_mark. simpl. rewrite C. now destruct (d_find pd t (dirty cs)). }
@@ -233,14 +234,14 @@ Proof.
   - assert (SV : copy (vs cs') p t0 = copy (vs cs) p t0) by (rewrite CP, K; reflexivity).
     assert (SD : durable_copy cs' p t0 = durable_copy cs p t0).
     { unfold durable_copy. rewrite DF, K, SV. reflexivity. }
-    destruct (goodNI_refl cs (conj (wf_init false) (conj ND E))) as [_ R] eqn:Dummy. clear Dummy.
-    (* reuse reflexivity on cs for this key, transported along the two equalities *)
+    (* reflexivity on cs for this key, transported along the two equalities *)
     assert (R0 : kstepNI cs cs p t0).
     { destruct (copy (vs cs) p t0) as [f0|] eqn:C0.
       - right. exists f0, f0. repeat split; auto using ver_le_refl.
         + intros g Hg. exists g. split; [exact Hg|apply ver_le_refl].
-        + intros g' Hg. destruct (durable_le_visible cs p t0 g' (conj ND E) Hg) as (f1 & C1 & L1). congruence.
-      - left. split; [reflexivity|]. unfold durable_copy.
+        + intros g' Hg. destruct (durable_le_visible cs p t0 g' (conj ND E) Hg) as (f1 & C1 & L1).
+          rewrite C0 in C1. inversion C1; subst. exact L1.
+      - left. split; [exact C0|]. unfold durable_copy.
         destruct (d_find p t0 (dirty cs)) as [img|] eqn:F; [|exact C0].
         apply d_find_some_in in F. destruct (E p t0 img F) as (f1 & C1 & _). congruence. }
     destruct R0 as [[A B]|(f0 & f1 & A & B & Lx & Dm & Dl)].
